@@ -297,6 +297,13 @@ def run(ctx):
             X[:, 0] = (np.array([rng.randint(0, n - 1) for _ in range(nrow)]) + 0.5) / n * 4 - 1
             X[0, 0], X[1, 0] = -1.0, 3.0
         by = rng.choice([None, 1])
+        if trial % 3 == 0:
+            # in every run: a by-variable that is exactly 0 on the rows holding the minimum and the maximum of the feature
+            # (the default knots are the range of the FEATURE, whatever the by-variable does) and non-zero elsewhere
+            by = 1
+            X[:, 1] = np.where(X[:, 1] == 0, 1.0, X[:, 1])
+            X[int(np.argmin(X[:, 0])), 1] = 0.0
+            X[int(np.argmax(X[:, 0])), 1] = 0.0
         Xq = X.copy()
         if p >= 1 and basis == 'ps':
             Xq[:, 0] = Xq[:, 0] * 1.5 - 0.3   # prediction-time X outside the training range
